@@ -48,7 +48,11 @@ class GlobalPhaseGate(raw_types.Gate):
 
     def __pow__(self, power) -> cirq.GlobalPhaseGate:
         if isinstance(power, (int, float)):
-            return GlobalPhaseGate(self.coefficient**power)
+            coefficient = self.coefficient
+            if isinstance(coefficient, np.generic):
+                # A negative real numpy scalar raised to a fractional power is nan, not a complex number.
+                coefficient = coefficient.item()
+            return GlobalPhaseGate(coefficient**power)
         return NotImplemented
 
     def _unitary_(self) -> np.ndarray | NotImplementedType:
